@@ -22,7 +22,8 @@ func init() {
 			"recorded through a host function); go-containers: every []interface{}/map[string]interface{} shape of the stated depth over 6 leaves; go-typed: typed slices, " +
 			"maps, arrays, structs by value and by pointer; js-prims: boundary JS values x Go predicates/conversions vs in-language typeof/Number/String/Boolean; " +
 			"js-json: every JSON-like container of the stated depth -> Export by value; js-arrays: every array of length <= 3 over 11 element kinds; js-nested: " +
-			"homogeneous nestings to depth 4 x leaf-kind pairs; calls: (callee kind x this x args) cells on 5 call paths; reentrant: every API path (Otto.Call with nil/null/object this and new, Value.Call, Object.Call, Run, Get, Set, Eval) issued from inside a host function called from 8 script contexts (global code, shadowing locals, parameters, closure, with, with in a function, nested catch clauses, method of a local object); callargs: Go argument tuples of arity 0..3 over 17 kinds (scalars, nil, otto.Value, *otto.Object, slices, arrays, maps, structs, pointers, funcs) in every position x 10 API call routes vs the in-language call on the same values; typeset: ordered pairs (and triples) of 20 look-alike bridged values (anonymous structs with permuted fields, same-named local types, reflect.StructOf, named vs unnamed, embedded, crossed json tags, alike maps/slices) in one and in two runtimes, each fully observed after the others; numsinks: 78 boundary Go numbers of every width (integer min/-1/0/1/max, both zeros, +-MaxFloat32 and the smallest float32 subnormal with their double neighbours, MaxFloat64, +-Infinity, NaN, 2^53, 2^63, 2^64) x 6 Go->JS transports (Set global, bridged slice element / map value / struct field, Go function result, literal) x 10 JS->Go sinks (call, variadic alone and as tail, struct field, slice / array / map element, array->slice, object->map, object->struct parameter) x 12 destination widths: exactly representable values arrive bit for bit, the others are refused loudly with nothing stored. A case is non-trivial when the " +
+			"homogeneous nestings to depth 4 x leaf-kind pairs; calls: (callee kind x this x args) cells on 5 call paths; reentrant: every API path (Otto.Call with nil/null/object this and new, Value.Call, Object.Call, Run, Get, Set, Eval) issued from inside a host function called from 8 script contexts (global code, shadowing locals, parameters, closure, with, with in a function, nested catch clauses, method of a local object); callargs: Go argument tuples of arity 0..3 over 17 kinds (scalars, nil, otto.Value, *otto.Object, slices, arrays, maps, structs, pointers, funcs) in every position x 10 API call routes vs the in-language call on the same values; typeset: ordered pairs (and triples) of 20 look-alike bridged values (anonymous structs with permuted fields, same-named local types, reflect.StructOf, named vs unnamed, embedded, crossed json tags, alike maps/slices) in one and in two runtimes, each fully observed after the others; numsinks: 78 boundary Go numbers of every width (integer min/-1/0/1/max, both zeros, +-MaxFloat32 and the smallest float32 subnormal with their double neighbours, MaxFloat64, +-Infinity, NaN, 2^53, 2^63, 2^64) x 6 Go->JS transports (Set global, bridged slice element / map value / struct field, Go function result, literal) x 10 JS->Go sinks (call, variadic alone and as tail, struct field, slice / array / map element, array->slice, object->map, object->struct parameter) x 12 destination widths: exactly representable values arrive bit for bit, the others are refused loudly with nothing stored. retained: var c = <slot> for 5 holder slots (pointer field, nested pointer field, map value, slice element, interface field) x every sequence of 1 and 2 of 7 operations (re-point / nil the slot from script and from Go, rename the pointees through the reference, the slot and Go), all views against a Go pointer model after every step; samenamed: ordered pairs and triples of 6 distinct struct types printing the same name with different layouts in one runtime, fields read / tested / written by name with the Go side read after every write, object -> struct parameter, each observed again after the others. " +
+			"A case is non-trivial when the " +
 			"value reached the runtime (Set/Run succeeded) so that all observations were made; distinct outcomes are distinct full observation vectors.",
 		Families: []engine.Family{
 			{Name: "go-scalars", Run: runGoScalars},
@@ -46,6 +47,8 @@ func init() {
 			{Name: "mapkeys", Run: brig.RunMapKeys},
 			{Name: "kindtwins", Run: func(r *engine.Run) { brig.RunKindTwins(r, false) }},
 			{Name: "numsinks", Run: brig.RunNumSinks},
+			{Name: "retained", Run: brig.RunRetained},
+			{Name: "samenamed", Run: brig.RunSameNamed},
 		},
 		Assumptions: []string{
 			"ref/bridge is the reference: ES5 9.2/9.3.1/9.4/9.8.1 conversions, the natural JS counterpart of a Go value (nil and nil pointers are undefined, pointers transparent, numbers the nearest double, unexported fields absent)",
